@@ -19,8 +19,8 @@ import (
 
 	"github.com/miekg/dns"
 	"github.com/slackhq/nebula/cert"
-	"golang.org/x/crypto/ssh"
 	"go.yaml.in/yaml/v3"
+	"golang.org/x/crypto/ssh"
 	"pgregory.net/rapid"
 	"verifkit/vk"
 )
